@@ -252,6 +252,9 @@ func (f *srvFam) Exec(r *hx.Run, op []string) string {
 		return "ok"
 	case "submit":
 		k, _ := strconv.Atoi(op[1])
+		for _, v := range f.vals { // submit is defined with holding validators (also when a shrunk replay lost the `hold` line)
+			v.setHold(true)
+		}
 		for i := 0; i < k; i++ {
 			f.txPid.Tell(&tc.TxReq{Tx: f.newTx(), Sender: tc.NetSender})
 		}
